@@ -1,5 +1,5 @@
 """per-property checks"""
-import json, os, sys, time
+import json, os, re, sys, time
 from runner import *
 
 TRUST_COMMON = [
@@ -24,7 +24,12 @@ def prove(ctx, module, theorems, extra_targets=()):
     broken = []
     try:
         audit_sources()
-        lake_build([module, "acvdriver"] + list(extra_targets))
+        mods = {module}
+        for t in theorems:
+            mm = re.match(r"Acv\.(C\d+)\.", t)
+            if mm:
+                mods.add("Acv.Props." + mm.group(1))
+        lake_build(sorted(mods) + ["acvdriver"] + list(extra_targets))
         ax = audit_axioms(module, theorems)
         for t in theorems:
             ctx.oblige(t, True)
@@ -187,3 +192,204 @@ def check_C01(ctx):
     ctx.assumptions += ["per-atom Rego snippets are modelled by Atom.fails (tied by the atoms stream)",
                         "per-value atoms (in, pattern, lengths, numeric, datatype, property comparisons) are classical only on single-valued properties; on other graphs the check compares with the literal translator model (stream graph)"]
     return conclude(ctx, broken, trusted=TRUST_COMMON)
+
+
+# ------------------------------------------------------------------ pipeline skeleton: C04, C09, C11, C17
+
+def cmp_pipe(case, i, m):
+    if "error" in m:
+        return ("model-error", "model driver rejected the case: " + m["error"])
+    if i.get("outcome") in ("setup-failed", "timeout", "badcase"):
+        return ("impl-" + i["outcome"], f"{case['scenario']}: harness could not run the case: {i.get('err')}")
+    diffs = []
+    for k in ("outcome", "events", "closes", "milestones"):
+        if i.get(k) != m.get(k):
+            diffs.append(f"{k}: real {i.get(k)} vs skeleton {m.get(k)}")
+    if diffs:
+        return ("pipe:" + case["scenario"].split(":")[0], f"entry {case['entry']} {case['scenario']}: " + "; ".join(diffs) + f" ({str(i.get('err'))[:120]})")
+    return None
+
+
+def pipe_property_checks(pid, case, i):
+    """direct statement of each property on the REAL observations (the failing input is the case itself)"""
+    sc = case["scenario"]
+    out = []
+    if pid == "C04" and sc.startswith("data:") and "err" in case["oracle"]:
+        if i.get("outcome") == "ok":
+            out.append(("report-for-unreadable-data", f"{sc}: entry {case['entry']} returned a report (conforms={i.get('conforms')}) for data that cannot be read"))
+        elif i.get("outcome") == "panic":
+            out.append(("panic-for-unreadable-data", f"{sc}: entry {case['entry']} panicked: {str(i.get('err'))[:150]}"))
+    if pid == "C11":
+        evs = i.get("events") or []
+        order = [0, 1, 6, 7, 8, 9, 2, 3, 4, 5, 10, 11, 12, 13] if case["entry"] in (0, 2) else ([0, 1, 6, 7, 8, 9] if case["entry"] == 4 else [2, 3, 4, 5, 10, 11, 12, 13])
+        if evs != order[:len(evs)]:
+            out.append(("not-a-prefix", f"{sc}: entry {case['entry']} events {evs} are not a prefix of the stage order"))
+        open_ = None
+        for e in evs:
+            if e % 2 == 0:
+                if open_ is not None:
+                    out.append(("overlap", f"{sc}: stage {e} started while {open_} was open")); break
+                open_ = e
+            else:
+                if open_ != e - 1:
+                    out.append(("done-without-start", f"{sc}: completion {e} without its start")); break
+                open_ = None
+        want = 1
+        if case["entry"] == 4 and i.get("outcome") == "ok":
+            want = 0
+        if i.get("outcome") in ("ok", "err") and i.get("closes") != want:
+            out.append(("close-count", f"{sc}: entry {case['entry']} outcome {i.get('outcome')}: channel closed {i.get('closes')} times, expected {want}"))
+        if i.get("outcome") in ("ok", "err"):
+            ndone = sum(1 for e in evs if e % 2 == 1)
+            ms = i.get("milestones") or []
+            if len(ms) != ndone or any(":negative" in x for x in ms):
+                out.append(("milestones", f"{sc}: {ndone} completed stages but milestones {ms}"))
+    if pid == "C17" and i.get("outcome") in ("panic", "timeout"):
+        out.append(("panic", f"{sc}: entry {case['entry']} {i.get('outcome')}: {str(i.get('err'))[:150]}"))
+    return out
+
+
+def pipe_stream(ctx, pid, full=False):
+    lines = gen_cases("pipe", 2 if full else 1, ctx.seed)
+    impl = run_impl(lines)
+    model = run_model(lines)
+    n_bad = 0
+    scen = {}
+    for line, i, m in zip(lines, impl, model):
+        case = json.loads(line)
+        scen[case["scenario"].split(":")[0]] = scen.get(case["scenario"].split(":")[0], 0) + 1
+        for sig, desc in pipe_property_checks(pid, case, i):
+            ctx.violation(f"{pid}:{sig}:{case['scenario']}:{case['entry']}", desc, {"case": case, "impl": i, "model": m})
+            n_bad += 1
+        r = cmp_pipe(case, i, m)
+        if r:
+            ctx.violation(f"pipe-corr:{r[0]}:{case['scenario']}:{case['entry']}", "skeleton correspondence: " + r[1], {"case": case, "impl": i, "model": m})
+            n_bad += 1
+    ctx.coverage.setdefault("streams", {})["pipe"] = {"cases": len(lines), "by_kind": scen}
+    ctx.coverage["evaluations"] = ctx.coverage.get("evaluations", 0) + len(lines)
+    ctx.coverage["distinct_nontrivial"] = ctx.coverage.get("distinct_nontrivial", 0) + sum(1 for l in lines if '"err"' in l or '"panic"' in l)
+    if lines and len(ctx.samples) < 6:
+        c = json.loads(lines[len(lines) // 2])
+        ctx.samples.append({"stream": "pipe", "case": {k: c[k] for k in ("entry", "oracle", "scenario")}, "impl": impl[len(lines) // 2], "model": model[len(lines) // 2]})
+    ctx.oblige("correspondence:pipeline skeleton vs real runs with an event channel (every failing stage x entry point)", n_bad == 0)
+
+
+def skeleton_check(ctx, pid, module, theorems, extra=None, rule="", assumptions=()):
+    broken = []
+    try:
+        build_harness()
+        run_extract()
+    except Broken as b:
+        return conclude(ctx, [b])
+    broken += prove(ctx, module, theorems)
+    try:
+        pipe_stream(ctx, pid, full=not ctx.quick())
+        if extra:
+            extra(ctx)
+    except Broken as b:
+        broken.append(b)
+    ctx.coverage["rule"] = rule
+    ctx.assumptions += list(assumptions)
+    return conclude(ctx, broken, trusted=TRUST_COMMON + ["translator of the pipeline functions into the Stmt skeleton (harness/extract_pipeline.go); statements it cannot read become `opaque` and fail theorem no_opaque"])
+
+
+C11_THEOREMS = ["Acv.C11.no_opaque", "Acv.C11.other_calls_known", "Acv.C11.events_paired", "Acv.C11.events_prefix_bracketed",
+                "Acv.C11.closed_exactly_once", "Acv.C11.compile_profile_close", "Acv.C11.compile_then_validate_close",
+                "Acv.C11.milestones_one_per_completed_stage", "Acv.C11.milestone_cases_complete", "Acv.C11.assignment_runs_explored"]
+
+
+def check_C11(ctx):
+    return skeleton_check(ctx, "C11", "Acv.Props.C11", C11_THEOREMS,
+        rule="every profile/data variant built to fail at one stage (YAML, structure, unknown prefix, Rego syntax, denied builtin, undecodable data, JSON-LD rejection, evaluation conflict) x every public entry point, run with a real event channel and consumer goroutine; non-trivial = some stage fails",
+        assumptions=["every event send and close goes through dispatchEvent/CloseEventChan in the translated functions (checked by the correspondence, not by the theorems)"])
+
+
+C04_THEOREMS = ["Acv.C04.data_failure_is_never_a_report", "Acv.C04.report_only_after_all_stages",
+                "Acv.C04.process_input_checks_decode", "Acv.C04.swallowed_decode_error_reports", "Acv.C11.no_opaque"]
+
+
+def check_C04(ctx):
+    return skeleton_check(ctx, "C04", "Acv.Props.C04", C04_THEOREMS,
+        rule="malformed data corpus (empty, whitespace, truncations of a fixture at 24 offsets, BOM/UTF-16, RAML source, single quotes, NaN, trailing comma; JSON-LD rejects: @type number, @id array, @context number, @value+@id, bad @language, @reverse scalar, keyword redefinition) x 4 validating entry points",
+        assumptions=["json-gold's rejection set and encoding/json's decoder are dependencies: which documents they reject is observed, not proved"])
+
+
+C17_THEOREMS = ["Acv.C17.total_under_guard", "Acv.C17.guard_converts_panics", "Acv.C17.panics_only_from_unguarded_steps",
+                "Acv.C17.unguarded_generator_panic_escapes", "Acv.C11.no_opaque"]
+
+
+def cmp_fuzz(case, i, m):
+    if i.get("outcome") in ("ok", "err"):
+        return None
+    return ("fuzz-" + str(i.get("outcome")), f"{case['kind']} through entry {case['entry']}: {i.get('outcome')}: {str(i.get('err'))[:200]}")
+
+
+def fuzz_stream(ctx):
+    n = 700 if ctx.quick() else 20000
+    lines = gen_cases("fuzz", n, ctx.seed * 1000 + 17)
+    impl = run_impl(lines)
+    kinds = {}
+    bad = 0
+    for line, i in zip(lines, impl):
+        case = json.loads(line)
+        k = (case["kind"], i.get("outcome"))
+        kinds[f"{k[0]}->{k[1]}"] = kinds.get(f"{k[0]}->{k[1]}", 0) + 1
+        r = cmp_fuzz(case, i, None)
+        if r:
+            bad += 1
+            ctx.violation(f"C17:{r[0]}:{str(i.get('err'))[:60]}", r[1], {"case": case, "impl": i})
+    ctx.coverage.setdefault("streams", {})["fuzz"] = {"cases": len(lines), "outcomes": kinds}
+    ctx.coverage["evaluations"] = ctx.coverage.get("evaluations", 0) + len(lines)
+    ctx.coverage["distinct_nontrivial"] = ctx.coverage.get("distinct_nontrivial", 0) + len(set(lines))
+    ctx.oblige("search:structured fuzz (hostile profiles/data, mutations of fixtures, raw bytes) finds no panic or hang", bad == 0)
+
+
+def check_C17(ctx):
+    return skeleton_check(ctx, "C17", "Acv.Props.C17", C17_THEOREMS, extra=fuzz_stream,
+        rule="pipe: every failing-stage variant x entry point; fuzz: hand-written hostile profiles and data (wrong YAML kinds at every key, anchors/aliases, embedded Rego redefining report rules, malformed source maps), 1-3 byte/token mutations of the repository's fixtures, raw bytes; through all 5 public entry points under recover() with a timeout",
+        assumptions=["panic-freedom and termination inside yaml.v3, json-gold, OPA and encoding/json are not modelled (theorem total_under_guard assumes them); stack exhaustion and out-of-memory are outside the model"])
+
+
+C09_THEOREMS = ["Acv.C09.validate_is_compile_then_validateCompiled", "Acv.C09.pkg_wrappers", "Acv.C09.history_independent",
+                "Acv.C09.history_position", "Acv.C11.no_opaque"]
+
+
+def cmp_hist(case, i, m):
+    if i.get("outcome") != "ok":
+        return ("hist-" + str(i.get("outcome")), f"history case could not run: {str(i.get('err'))[:200]}")
+    for k, p in enumerate(i["positions"]):
+        if not p["same"]:
+            return ("hist-differs", f"position {k} ({case['kinds'][k]}) of a history of {len(case['docs'])} documents: compiled-profile result ({p['compiled']}) differs from a fresh validation ({p['fresh']})")
+        if p["compiled"] == "panic":
+            return ("hist-panic", f"position {k} ({case['kinds'][k]}): panic")
+        if case["kinds"][k] in ("jsonld-reject", "undecodable", "empty-text") and p["compiled"] != "err":
+            return ("hist-bad-doc-accepted", f"position {k} ({case['kinds'][k]}): outcome {p['compiled']}")
+    return None
+
+
+def hist_stream(ctx):
+    n = 32 if ctx.quick() else 600
+    lines = gen_cases("hist", n, ctx.seed * 1000 + 9)
+    impl = run_impl(lines, jobs=16)
+    bad = 0
+    docs = 0
+    for line, i in zip(lines, impl):
+        case = json.loads(line)
+        docs += len(case["docs"])
+        r = cmp_hist(case, i, None)
+        if r:
+            bad += 1
+            ctx.violation(f"C09:{r[0]}", r[1], {"case": case, "impl": i})
+    ctx.coverage.setdefault("streams", {})["hist"] = {"histories": len(lines), "documents": docs}
+    ctx.coverage["evaluations"] = ctx.coverage.get("evaluations", 0) + docs
+    ctx.coverage["distinct_nontrivial"] = ctx.coverage.get("distinct_nontrivial", 0) + len(lines)
+    if lines:
+        c = json.loads(lines[0])
+        ctx.samples.append({"stream": "hist", "kinds": c["kinds"], "impl": impl[0]})
+    ctx.oblige("correspondence:histories through one compiled profile vs fresh validations (byte equality, fixed clock)", bad == 0)
+
+
+def check_C09(ctx):
+    return skeleton_check(ctx, "C09", "Acv.Props.C09", C09_THEOREMS, extra=hist_stream,
+        rule="histories of 4..9 documents (random graphs that pass/fail, repeats, empty graph, JSON-LD-rejected and undecodable documents) through one PreparedEvalQuery of a random declarative profile with validations on all three levels; each report compared byte for byte with a fresh ValidateWithConfiguration under a fixed clock",
+        assumptions=["OPA's PreparedEvalQuery.Eval is a pure function of (query, input) returning fresh result trees: this is the hypothesis of history_independent (Engine.evalDoc) and is only observed by the history runs"])
